@@ -190,11 +190,12 @@ func checkRoomID(res *eventV3) error {
 		if !strings.HasPrefix(res.eventFields.RoomID, "!") {
 			return fmt.Errorf("gomatrixserverlib: room_id must start with !")
 		}
+		// the room ID of a create event is derived from its event ID; every other
+		// event must carry one that RoomID() can parse
+		if err := checkValidRoomID(res.eventFields.RoomID); err != nil {
+			return err
+		}
 		return checkIDLength(res.eventFields.RoomID, "room")
-	}
-	if !isCreateEvent {
-		// the room ID of a create event is derived from its event ID
-		return checkValidRoomID(res.eventFields.RoomID)
 	}
 	return nil
 }
